@@ -29,13 +29,17 @@ TRUSTED = [
     "name -> (#controls, #targets, #parameters) of SchedReal.v (proved to cover every name of dispatch and class_map), an "
     "instruction that is ill-formed for its name (unknown name, wrong number of controls/targets, repeated qubit, a gate "
     "with >= 2 parameters carrying another number of arguments) acts as the identity, argument lists are identified up to "
-    "equality of rationals; Instruction's SORTED target/control lists give the gate's unitary because every two-target / "
-    "two-control matrix is invariant under exchanging them (act_real_target_order / act_real_control_order, proved) except "
-    "RZX, for which act_real is the gate's unitary only when the targets are ascending.  The harness additionally checks "
+    "equality of rationals; the model's instr carries the qubits the gate's MATRIX treats as controls / targets (first nc of "
+    "controls ++ targets; harness: c11.canon_roles, an independent copy of scheduler._NUM_CONTROLS), sorted for the library "
+    "names - which keeps the unitary because every two-target / two-control matrix is invariant under exchanging them "
+    "(act_real_target_order / act_real_control_order, proved) - and in the listed order for RZX and user-defined names; "
+    "every gate of the sweep the library gives a unitary to (incl. targets-only TOFFOLI/FREDKIN, plain Gate objects with "
+    "any division into controls/targets) is checked to be well formed for act_real (wf_sweep), user-defined gates are "
+    "outside act_real (identity) and commute by rule only with identical copies.  The harness additionally checks "
     "H2 numerically: commutator sweep over all pairs of placed library gates on 3 qubits and unitary comparison of every "
     "scheduled circuit",
     "generate_dependency_graph modelled qubit by qubit (loop interchange); gate attributes as in C11",
-    "the model describes /repo with fixes/C05-commutation-rules.diff applied (shipped rules = commutation_rules_orig)",
+    "the model describes /repo with fixes/C05-commutation-rules.diff and fixes/C05-role-order.diff applied (shipped rules = commutation_rules_orig)",
 ]
 ASSUMES = [
     "every gate uses at least one qubit (a list of GLOBALPHASE gates only raises ValueError in the shipped code)",
@@ -135,6 +139,87 @@ def placed_gates(N, angles=(0.5, 1.25)):
     return out
 
 
+def role_forms(N, angles=(0.5,)):
+    """the same library gates given with an unusual division of their qubits into controls and targets (accepted by the
+    library; the matrix acts on controls ++ targets in the listed order), permuted targets of the non-symmetric RZX, and a
+    user-defined two-qubit gate"""
+    out = []
+    for a, b in itertools.permutations(range(N), 2):
+        for k in S.TWO_Q_CTRL:                       # Gate("CNOT", targets=[c, t]) : control = first listed qubit
+            out.append(dict(name=k, targets=[a, b], controls=None, arg=None, generic=True))
+        for k in S.TWO_Q_CTRL_ARG:
+            for x in angles:
+                out.append(dict(name=k, targets=[a, b], controls=None, arg=x, generic=True))
+        out.append(dict(name="CNOT", targets=[], controls=[a, b], arg=None, generic=True))
+        out.append(dict(name="SWAP", targets=[b], controls=[a], arg=None, generic=True))
+        for x in angles:
+            out.append(dict(name="RZX", targets=[a, b], controls=None, arg=x))
+            out.append(dict(name=S.USER_GATE, targets=[a, b], controls=None, arg=x))
+            out.append(dict(name=S.USER_GATE, targets=[b], controls=[a], arg=x))
+    if N >= 3:
+        for q in itertools.permutations(range(N), 3):
+            for k in ("TOFFOLI", "FREDKIN"):
+                out.append(dict(name=k, targets=list(q), controls=None, arg=None))                 # class, targets only
+                out.append(dict(name=k, targets=list(q[1:]), controls=[q[0]], arg=None))           # class, 1 + 2
+                out.append(dict(name=k, targets=[q[2]], controls=list(q[:2]), arg=None, generic=True))   # Gate object, 2 + 1
+    return out
+
+
+_FORMS = {}
+
+
+def rand_role_form(rng, N):
+    N = min(N, 4)
+    if N not in _FORMS:
+        _FORMS[N] = role_forms(N)
+    g = dict(rng.choice(_FORMS[N]))
+    if g["arg"] is not None:
+        g["arg"] = rng.choice(S.ANGLES)
+    return g
+
+
+def gen_role_input(rng, nmax):
+    """circuits mixing unusual role divisions with the ordinary forms of the same gates"""
+    N = rng.choice([2, 3, 3, 4])
+    n = rng.randint(2, nmax)
+    kinds = ["CNOT", "CNOT", "X", "RX", "Z", "RZ", "TOFFOLI", "FREDKIN", "RZX", "CZ", "CRX", "SWAP"]
+    specs = [rand_role_form(rng, N) if rng.random() < 0.6 else S.rand_gate(rng, N, kinds) for _ in range(n)]
+    return dict(instrs=specs, method=rng.choice(["ASAP", "ALAP"]), perm=rng.random() < 0.85, random=rng.random() < 0.3,
+                shuf_seed=rng.randrange(10 ** 6), mode=rng.choice(["cycles", "cycles", "indices"]),
+                **{"as": rng.choice(["circuit", "gates"])})
+
+
+def has_unitary(spec):
+    try:
+        S.gate_unitary(spec, max(S.spec_qubits(spec) + [0]) + 1)
+        return True
+    except Exception:  # noqa
+        return False
+
+
+def wf_sweep(corr, gates):
+    """a gate the library gives a unitary to must be well formed for the Coq semantics act_real (otherwise real_H2 /
+    sched_sem_unitary would treat it as the identity and say nothing about it)"""
+    uniq = {}
+    for g in gates:
+        if g["name"] not in (S.USER_GATE, "GLOBALPHASE"):
+            uniq.setdefault(json.dumps(g, sort_keys=True), g)
+    gs = list(uniq.values())
+    body = (S.COQ_PRELUDE + "From QV Require Import Proofs.SchedReal.\n" + "\n".join(
+        "Eval vm_compute in (match wf_instr %s with Some _ => true | None => false end)." % S.cinstr(dict(g, dur=[1, 1]))
+        for g in gs) + "\n")
+    vals = parse_evals(coq_eval_many([("c05wf", body)])["c05wf"])
+    if len(vals) != len(gs):
+        raise Broken("coq-eval:c05wf", "wrong number of values")
+    for g, v in zip(gs, vals):
+        corr.tally("wf-gate")
+        u = has_unitary(g)
+        if u and v is not True:
+            corr.disagree(dict(instrs=[g], mode="wf"), "the library gives the gate a unitary", v,
+                          "gate with a unitary is ill-formed for act_real (SchedReal.wf_instr): the theorem would not cover it")
+    corr.extra["wf_gates"] = len(gs)
+
+
 def real_rule(s1, s2):
     from qutip_qip.compiler import Scheduler
     ins = [S.mk_instruction(dict(s1, dur=[1, 1])), S.mk_instruction(dict(s2, dur=[1, 1]))]
@@ -149,6 +234,20 @@ def rule_sweep(ctx, corr):
     # 4-qubit FREDKIN/TOFFOLI pairs (overlapping targets need 4 qubits for distinct pairs)
     g4 = [g for g in placed_gates(4, angles=(0.5,)) if g["name"] in ("FREDKIN", "TOFFOLI")]
     pairs += [(a, b) for a in g4 for b in g4 if a["name"] == b["name"]]
+    # unusual role divisions / permuted targets / user gates: against every gate of the same name, every gate of the
+    # CNOT-X-Z rule family, and a sample of the rest
+    forms = role_forms(N, angles=(0.5, 1.25) if ctx.thorough else (0.5,))
+    family = ("CNOT", "X", "RX", "Z", "RZ")
+    for a in forms:
+        for b in gates + forms:
+            if set(S.spec_qubits(a)) & set(S.spec_qubits(b)) and (a["name"] == b["name"] or a["name"] in family or b["name"] in family):
+                pairs.append((a, b))
+                if b in gates:
+                    pairs.append((b, a))
+    others = [(a, b) for a in forms for b in gates if set(S.spec_qubits(a)) & set(S.spec_qubits(b))]
+    pairs += rng.sample(others, min(len(others), ctx.n(600, 4000)))
+    f4 = [g for g in role_forms(4) if g["name"] in ("FREDKIN", "TOFFOLI")]
+    pairs += rng.sample([(a, b) for a in f4 for b in f4 + g4 if a["name"] == b["name"]], ctx.n(600, 4000))
     pairs = [tuple(i["instrs"]) for i in S.load_corpus("C05") if i.get("mode") == "rule"] + pairs
     items = []
     for a, b in pairs:
@@ -180,6 +279,7 @@ def rule_sweep(ctx, corr):
             if v != r:
                 corr.disagree(dict(instrs=[a, b], mode="rule"), r, v, "commutation_rules model vs Scheduler.commutation_rules")
     corr.extra["rule_pairs"] = len(items)
+    wf_sweep(corr, gates + forms + g4 + f4)
 
 
 # --------------------------------------------------------------------------------------------------
@@ -201,6 +301,7 @@ def reduced_alphabet():
     if REDUCED is None:
         names = {"CNOT", "X", "RX", "Z", "RZ", "SNOT", "CZ", "SWAP", "R", "FREDKIN", "TOFFOLI"}
         REDUCED = [g for g in placed_gates(3, angles=(0.5,)) if g["name"] in names]
+        REDUCED += [g for g in role_forms(3) if g["name"] in ("TOFFOLI", "FREDKIN", "CNOT") and g["controls"] is None]
     return REDUCED
 
 
@@ -328,13 +429,15 @@ def gen_history(rng):
     steps = []
     for k in range(nsteps):
         n = n0 if same_len else rng.randint(1, 6)
-        style = rng.choice(["distinct", "sharing", "sharing", "random", "random-small"])
+        style = rng.choice(["distinct", "sharing", "sharing", "random", "random-small", "roles"])
         if style == "distinct":
             specs = _distinct_1q(rng, n, N)
         elif style == "sharing":
             specs = _commuting_sharing(rng, n, N)
         elif style == "random":
             specs = [S.rand_gate(rng, N) for _ in range(n)]
+        elif style == "roles":
+            specs = [rand_role_form(rng, N) for _ in range(n)]
         else:
             specs = [S.rand_gate(rng, N, ["CNOT", "CNOT", "X", "RX", "Z", "RZ", "SNOT", "CZ", "SWAP"]) for _ in range(n)]
         step = dict(instrs=specs, method=method, perm=perm, random=rng.random() < 0.3, shuf_seed=rng.randrange(10 ** 6),
@@ -388,6 +491,8 @@ def correspond(ctx):
         exact.append(("cnot-x-z", gen_gate_input(rng, 8, N=rng.choice([2, 3]), kinds=["CNOT", "CNOT", "X", "RX", "Z", "RZ", "SNOT"])))
     for _ in range(ctx.n(400, 1500)):
         exact.append(("same-name-heavy", gen_gate_input(rng, 7, N=rng.choice([3, 4]), kinds=["R", "R", "QASMU", "MS", "FREDKIN", "FREDKIN", "TOFFOLI", "CRX", "CNOT", "RX", "SWAP"])))
+    for _ in range(ctx.n(500, 2500)):
+        exact.append(("role-forms", gen_role_input(rng, 7)))
     for _ in range(ctx.n(60, 300)):
         inp = gen_gate_input(rng, 6)
         inp["mode"] = "indices"
@@ -504,6 +609,12 @@ def search(ctx, broken):
                                     expected="a valid, unitary-preserving schedule for every call",
                                     what="reused Scheduler object: " + bad[0]))
                     break
+    for _ in range(600):
+        if len(out) + len(c.oracle_failures) >= 2:
+            break
+        inp = gen_role_input(rng, 6)
+        res, _ = S.run_real(inp)
+        check_real(c, inp, res)
     for _ in range(3000):
         if len(out) + len(c.oracle_failures) >= 3:
             break
